@@ -13,10 +13,11 @@
     evaluated).  Non-interference is stated on the specification ([C12_noninterference]) and
     transfers to the evaluator through C09_sound. *)
 From Coq Require Import String List ZArith Bool Arith.
-From PV.DSL Require Import Syntax Values Target Compile Interp Exec Laws Sound CompileProps Main Faults Causal Regular Examples.
+From PV.DSL Require Import Syntax Values Target Compile Interp Exec Laws Sound CompileProps Main Faults Causal Regular Examples PropsLemmas.
 From PV.Gen Require Import Algorithms_gen.
 Import ListNotations.
 Open Scope string_scope.
+Open Scope list_scope.
 
 (** every callback event (in particular every evaluation of an input element) logged while
     serving a request at multi-order n, at any point of any history, has orders <= n *)
@@ -30,13 +31,7 @@ Theorem C12_causal :
       run O alg (compile alg) W fuel' s1 (tb, name, ix) = (r, s2) -> r <> OutOfFuel ->
       exists l, log s2 = l ++ log s1 /\
                 forall e, In e l -> ole (idx_n (ev_idx e)) (idx_n ix).
-Proof.
-  intros V O alg W Hp fuel c rs os s1 E NO fuel' tb name ix r s2 E2 NO2.
-  pose proof (trivial_laws O) as L. pose proof (trivial_world_ok O alg W Hp) as WO.
-  destruct (@schedule_sound V O (@teq V) L alg W (tsfn O) WO fuel c rs os s1 E NO) as (I1 & _ & _).
-  destruct (@request_causal V O (@teq V) L alg W (tsfn O) WO fuel' s1 tb name ix r s2 I1 E2 NO2) as (l & El & Fl).
-  exists l. split; auto. intros e He. rewrite Forall_forall in Fl. exact (Fl e He).
-Qed.
+Proof. exact L_C12_causal. Qed.
 Print Assumptions C12_causal.
 
 Example C12_causal_example :
@@ -59,12 +54,7 @@ Theorem C12_once :
     run_all O alg (compile alg) W fuel (init_state alg W c) rs = (os, s1) ->
     Forall (fun o => o <> OutOfFuel) os ->
     NoDup (input_evs (log s1)).
-Proof.
-  intros V O alg W Hp nf fuel c rs os s1 E NO.
-  pose proof (trivial_laws O) as L. pose proof (trivial_world_ok O alg W Hp) as WO.
-  destruct (@schedule_sound V O (@teq V) L alg W (tsfn O) WO fuel c rs os s1 E NO) as (I1 & _ & _).
-  exact (inputs_once I1 nf).
-Qed.
+Proof. exact L_C12_once. Qed.
 Print Assumptions C12_once.
 
 (** two input families that agree on the cone of orders <= n give the same value at n *)
